@@ -6,6 +6,7 @@ from typing import Dict, List, Optional, Set, Tuple
 
 from ..callgraph import CallGraph
 from ..cfg import CFG, ENTRY, EXIT
+from .. import sym
 from ..core import AnalysisError, FunctionInfo, Project, arg_for, dotted, is_const, kwarg, norm, param_names, walk_no_nested
 from ..util import assignments, count_negations, header_calls, header_walk, mentions, returns_of, stmt_text
 from . import c01
@@ -426,6 +427,12 @@ def _nonempty_guarded(P: Project, g: FunctionInfo, node: ast.AST, name: str) -> 
             if pos is False and child is n.orelse:
                 return True, ""
         child, n = n, P.parent(n)
+    # (c') … or of an `if` statement on the same tests (the statement spelling of the conditional expression)
+    from ..util import guards_of
+    gs = set(guards_of(P, node))
+    if gs & {(name, True), (f"len({name}) == 1", True), (f"len({name}) > 0", True), (f"len({name}) >= 1", True), (f"len({name}) == 0", False),
+             (f"len({name}) < 1", False)}:
+        return True, ""
     return False, (f"`{name}` may be an empty term set (the algebra has Empty/Diff producing operators, e.g. `(a-a)`), and no dominating "
                    f"guard raises a parse error before the partial operation (it would escape as StopIteration/TypeError)")
 
@@ -853,16 +860,18 @@ def r10(ctx):
     for y in ys:
         ctx.look()
         st = P.enclosing_stmt(y)
-        ok = False
-        par, child = P.parent(st), st
-        while par is not None and par is not f.node:
-            if isinstance(par, ast.If) and any(child is x for x in par.body):
-                if any(norm(c) == "token" for c in _conjuncts(par.test)):
-                    ok = True
-                    break
-                if isinstance(par.test, ast.Name) and par.test.id == "quote_context":
-                    pass
-            child, par = par, P.parent(par)
+        # the condition under which the yield is reached (nested ifs and preceding early exits alike) must imply that the token
+        # is truthy: every conjunct mentioning only `token` itself is collected, and one of them must be the bare truthiness test
+        from ..util import reach_condition
+        rc = reach_condition(P, st, mention="token")
+        conj = rc.values if isinstance(rc, ast.BoolOp) and isinstance(rc.op, ast.And) else ([rc] if rc is not None else [])
+        flat = []
+        for c in conj:
+            c = sym.as_test(c)
+            while isinstance(c, ast.UnaryOp) and isinstance(c.op, ast.Not) and isinstance(c.operand, ast.UnaryOp) and isinstance(c.operand.op, ast.Not):
+                c = c.operand.operand
+            flat += list(c.values) if isinstance(c, ast.BoolOp) and isinstance(c.op, ast.And) else [c]
+        ok = any(norm(c) == "token" for c in flat)
         ctx.check(ok, "C14.R10", "a token is only emitted when it has text", f.module.line(y), ctx.construct(f, text=f"yield token @ {stmt_text(P.parent(st), 50) if P.parent(st) is not None else ''}"),
                   "`yield token` is not guarded by `if token`: an empty token (e.g. from `%%` or `{}`) reaches the parser and `token.token[0]` raises IndexError")
 
